@@ -26,10 +26,10 @@ From AG Require Import Base.Prelude Base.Res Signal.Greedy Signal.GreedyScale Si
 From Coq Require Import Floats.
 
 (* the scaling that the harness relation rel17scale performs: x * c and r * c * c with c = 2f64.powi(k) *)
-Example C17_fscale_is_mul_pow2 : forall k x, fscale k x = (x * Z.ldexp 1 k)%float /\
-                                              fscale2 k x = (x * Z.ldexp 1 k * Z.ldexp 1 k)%float.
+Example C17_fscale_is_mul_pow2 : forall k x, fscale k x = (x * pow2 k)%float /\ fscale2 k x = (x * pow2 k * pow2 k)%float.
 Proof. intros. split; reflexivity. Qed.
-Example C17_pow2_values : (pow2 10 = 1024 /\ pow2 (-10) = 0x1p-10 /\ pow2 0 = 1)%float.
+(* pow2 k is the binary64 number 2^k (general statement: pow2_spec in GreedyScale_proofs.v, through Flocq) *)
+Example C17_pow2_values : (pow2 10 = 1024 /\ pow2 (-10) = 0x1p-10 /\ pow2 0 = 1 /\ pow2 (-20) = Z.ldexp 1 (-20) /\ pow2 20 = Z.ldexp 1 20)%float.
 Proof. repeat split; vm_compute; reflexivity. Qed.
 
 (* one sweep: outputs scaled by c, squared residual by c^2, same control flow *)
